@@ -189,6 +189,17 @@ def oracle_tables(m):
             return "entry of placeholder U+%04X has role/close %r, its key says %r" % (ord(ph), (en.ttype, en.close_ph), key[1:])
     if m.placeholder != PUA_LO + len(m.placeholder2tag):
         return "counter %#x is not start + number of entries" % m.placeholder
+    # an element that is identical (the text FOLLOWING it is not part of it) has one placeholder per role: the table is
+    # keyed by the element's serialisation; what follows the last '>' of a key is text after the element
+    seen = {}
+    for (ser, ttype, close), ph in m.tag2placeholder.items():
+        if not isinstance(ser, str) or ">" not in ser:
+            continue
+        key = (ser[:ser.rindex(">") + 1], ttype, close)
+        if key in seen and seen[key] != ph:
+            return "identical element %s (role %r) has two placeholders U+%04X and U+%04X (keys differ in the text after the element)" % (
+                key[0], ttype, ord(seen[key]), ord(ph))
+        seen[key] = ph
     return None
 
 
